@@ -41,6 +41,8 @@ pub struct Ran {
     pub final_context: (usize, usize),
     pub n_instructions: usize,
     pub statement_addresses: Vec<usize>,
+    /// source rows of the instructions that failed during the run, in order (also when the run panicked)
+    pub error_rows: Vec<u32>,
 }
 
 pub fn positions_of_debug(s: &str) -> Vec<(u32, u32)> {
@@ -106,6 +108,8 @@ pub fn run_program(src: &str, opts: &RunOpts) -> Outcome {
 pub fn run_compiled(igr: rusty_basic::instruction_generator::InstructionGeneratorResult, udts: rusty_parser::UserDefinedTypes, opts: &RunOpts) -> Ran {
     let n_instructions = igr.instructions.len();
     let statement_addresses = igr.statement_addresses.clone();
+    let rows: Vec<u32> = igr.instructions.iter().map(|ip| ip.pos.row()).collect();
+    let rows_of = |pcs: Vec<usize>| -> Vec<u32> { pcs.into_iter().map(|pc| rows.get(pc).copied().unwrap_or(0)).collect() };
     let stdin = opts.stdin.clone();
     let budget = opts.budget;
     let trace = opts.trace;
@@ -113,9 +117,10 @@ pub fn run_compiled(igr: rusty_basic::instruction_generator::InstructionGenerato
     match r {
         Err(msg) => {
             let end = if msg.contains(BUDGET_EXHAUSTED) { End::Budget } else { End::Panic(msg) };
-            Ran { end, stdout: vec![], lpt1: vec![], globals: vec![], steps: 0, trace: None, final_context: (0, 0), n_instructions, statement_addresses }
+            let error_rows = rows_of(rusty_basic::interpreter::verif::error_pcs());
+            Ran { end, stdout: vec![], lpt1: vec![], globals: vec![], steps: 0, trace: None, final_context: (0, 0), n_instructions, statement_addresses, error_rows }
         }
-        Ok(RunOutcome { result, stdout, lpt1, globals, steps, trace, final_context }) => {
+        Ok(RunOutcome { result, stdout, lpt1, globals, steps, trace, final_context, error_pcs }) => {
             let end = match result {
                 Ok(()) => End::Ok,
                 Err(e) => {
@@ -126,7 +131,8 @@ pub fn run_compiled(igr: rusty_basic::instruction_generator::InstructionGenerato
                     }
                 }
             };
-            Ran { end, stdout, lpt1, globals, steps, trace, final_context, n_instructions, statement_addresses }
+            let error_rows = rows_of(error_pcs);
+            Ran { end, stdout, lpt1, globals, steps, trace, final_context, n_instructions, statement_addresses, error_rows }
         }
     }
 }
@@ -134,4 +140,100 @@ pub fn run_compiled(igr: rusty_basic::instruction_generator::InstructionGenerato
 /// stdout as text (lossy), for messages
 pub fn text(b: &[u8]) -> String {
     String::from_utf8_lossy(b).to_string()
+}
+
+
+/// What kind of source line the last failed instruction before the end of the run belongs to
+/// (used to key internal failures that follow a handled error): the statement keyword or
+/// assignment / call, with `+call` when the line contains a call or subscript inside another one,
+/// and `:in-sub` when the line stands inside a SUB or FUNCTION.
+pub fn last_error_kind(src: &str, r: &Ran) -> String {
+    // an error in the header of a block (SELECT CASE subject, FOR bounds) is the one that matters
+    // when there is one: the run resumes inside the block; otherwise the last error before the end
+    let header = r.error_rows.iter().copied().find(|row| {
+        *row > 0 && {
+            let l = src.lines().nth(*row as usize - 1).map(|l| l.trim().to_uppercase()).unwrap_or_default();
+            l.starts_with("SELECT CASE") || l.starts_with("FOR ")
+        }
+    });
+    let row = match header.or(r.error_rows.last().copied()) {
+        Some(x) if x > 0 => x as usize,
+        _ => return "no-error-before".into(),
+    };
+    let lines: Vec<&str> = src.lines().collect();
+    let line = lines.get(row - 1).map(|l| l.trim().to_uppercase()).unwrap_or_default();
+    let first = line.split(|c: char| !c.is_ascii_alphanumeric() && c != '$' && c != '%' && c != '&' && c != '!' && c != '#').next().unwrap_or("");
+    let kind = if line.starts_with("SELECT CASE") {
+        "select-subject"
+    } else if first == "FOR" {
+        "for-header"
+    } else if first == "CASE" {
+        "case-test"
+    } else if first == "IF" || first == "ELSEIF" {
+        "if-condition"
+    } else if first == "WHILE" || first == "LOOP" || first == "DO" {
+        "loop-condition"
+    } else if ["PRINT", "LPRINT", "INPUT", "READ", "OPEN", "CLOSE", "NEXT", "GOSUB", "GOTO", "RETURN", "SWAP", "DIM", "REDIM", "POKE", "FIELD", "GET", "PUT", "LINE", "WRITE", "LSET", "MID$", "KILL", "NAME", "LOCATE", "COLOR", "VIEW", "WIDTH", "DEF", "ENVIRON", "RESUME", "ON", "DATA", "CONST"].contains(&first) {
+        "statement"
+    } else {
+        // assignment: an = outside parentheses before anything else of interest
+        let mut depth = 0;
+        let mut assign = false;
+        for c in line.chars() {
+            match c {
+                '(' => depth += 1,
+                ')' => depth -= 1,
+                '=' if depth == 0 => {
+                    assign = true;
+                    break;
+                }
+                '"' => break,
+                _ => {}
+            }
+        }
+        if assign { "assignment" } else { "call" }
+    };
+    // a call or subscript nested in the arguments of another one
+    let mut depth = 0;
+    let mut nested = false;
+    let chars: Vec<char> = line.chars().collect();
+    for (i, c) in chars.iter().enumerate() {
+        match c {
+            '(' => {
+                let named = i > 0 && (chars[i - 1].is_ascii_alphanumeric() || "$%&!#".contains(chars[i - 1]));
+                if named && depth >= 1 {
+                    // the enclosing parenthesis must belong to a name too
+                    nested = true;
+                }
+                if named { depth += 1 } else { depth += 0 }
+            }
+            ')' => {
+                if depth > 0 {
+                    depth -= 1
+                }
+            }
+            _ => {}
+        }
+    }
+    let in_sub = {
+        let mut inside = false;
+        for l in lines.iter().take(row - 1) {
+            let u = l.trim().to_uppercase();
+            if u.starts_with("SUB ") || u.starts_with("FUNCTION ") {
+                inside = true;
+            } else if u.starts_with("END SUB") || u.starts_with("END FUNCTION") {
+                inside = false;
+            }
+        }
+        inside
+    };
+    // how errors are handled in this program: inline (ON ERROR RESUME NEXT) or by a handler (ON ERROR GOTO)
+    let up = src.to_uppercase();
+    let mode = match (up.contains("ON ERROR RESUME NEXT"), up.contains("ON ERROR GOTO")) {
+        (true, false) => "inline",
+        (false, true) => "handler",
+        (true, true) => "both",
+        _ => "none",
+    };
+    format!("{}:{}{}{}", mode, kind, if nested { "+call" } else { "" }, if in_sub { ":in-sub" } else { "" })
 }
